@@ -604,6 +604,9 @@ CELL_TOL = {"chol": (1e-8, 1e-9), "cg": (5e-4, 5e-4), "fpv": (1e-6, 1e-6), "fps"
 
 
 HIST = ["setters", "optim", "load_state_dict", "set_train_data"]
+# copy-then-modify-then-evaluate: the model is deep-copied (eval caches filled), the COPY is moved to the final state through
+# one of the invalidation points and everything is evaluated on the copy; the original must be left as it was
+HIST_COPY = ["deepcopy>setters", "deepcopy>optim", "deepcopy>load_state_dict"]
 
 
 def _apply_history(kind, mdl, lik, set_params, p1, build, new_data, torch):
@@ -612,8 +615,17 @@ def _apply_history(kind, mdl, lik, set_params, p1, build, new_data, torch):
       setters          train() -> assign hyper-parameters -> eval()
       optim            train() -> three Adam steps on the exact MLL -> eval()
       load_state_dict  load the state of a fresh model built with the final parameters (stays in eval mode)
-      set_train_data   replace the training data (stays in eval mode; parameters unchanged)"""
+      set_train_data   replace the training data (stays in eval mode; parameters unchanged)
+      deepcopy>K       copy.deepcopy(model) first, then K on the COPY (its own `.likelihood`)
+    Returns (model, likelihood) to evaluate — the copy for the `deepcopy>` kinds — and the untouched original (or None)."""
     import gpytorch
+    orig = None
+    if kind.startswith("deepcopy>"):
+        import copy
+        orig = (mdl, lik)
+        mdl = copy.deepcopy(mdl)
+        lik = mdl.likelihood
+        kind = kind.split(">", 1)[1]
     if kind == "setters":
         mdl.train(); lik.train()
         set_params(mdl, lik, p1)
@@ -638,12 +650,23 @@ def _apply_history(kind, mdl, lik, set_params, p1, build, new_data, torch):
         mdl.set_train_data(new_data[0], new_data[1], strict=False)
     else:
         raise ValueError(kind)
+    return mdl, lik, orig
+
+
+def _orig_check(rep, pre, desc, orig_obs):
+    """copy-then-modify histories: the ORIGINAL object must predict what it predicted before it was copied"""
+    if orig_obs is None:
+        return
+    (m0, c0), (m1, c1) = orig_obs
+    dv = max((m0 - m1).abs().max().item(), (c0 - c1).abs().max().item())
+    if not dv <= 1e-10:
+        rep.fail(pre + "original-changed", f"{desc}: after the copy was modified the ORIGINAL model's prediction moved by {dv:.3e}")
 
 
 def case_sgpr(ctx, idx, tier, hist=None):
     import gpytorch
     torch = _t()
-    rng = ctx.rng(f"{'hist_' if hist else ''}sgpr:{idx}")
+    rng = ctx.rng(f"{('copy_' if hist in HIST_COPY else 'hist_') if hist else ''}sgpr:{idx}")
     torch.manual_seed(rng.torch_seed())
     d = rng.randint(1, 2)
     n, m, ns = rng.randint(5, 9), rng.randint(2, 4), rng.randint(2, 4)
@@ -667,7 +690,7 @@ def case_sgpr(ctx, idx, tier, hist=None):
     n2 = rng.randint(5, 9)
     X2 = torch.rand(n2, d)
     y2 = torch.cos(2 * X2[:, 0]) + 0.2 * torch.randn(n2)
-    cell = ["chol", "cg", "fpv"][(idx // len(HIST) if hist else idx) % 3]
+    cell = ["chol", "cg", "fpv"][(idx // (len(HIST_COPY) if hist in HIST_COPY else len(HIST)) if hist else idx) % 3]
 
     class SGPR(gpytorch.models.ExactGP):
         def __init__(s, lik, Z):
@@ -703,9 +726,10 @@ def case_sgpr(ctx, idx, tier, hist=None):
                 mdl, lik = build(p0)
                 mdl.eval(); lik.eval()
                 with torch.no_grad(), _cell_ctx(cell):
-                    mdl(Xs).covariance_matrix          # fills prediction_strategy + the kernel's eval caches
+                    pr0 = mdl(Xs)                      # fills prediction_strategy + the kernel's eval caches
+                    before = (pr0.mean.clone(), pr0.covariance_matrix.clone())
                     mdl.covar_module(X0, X0).to_dense()
-                _apply_history(hist, mdl, lik, set_params, p1, build, (X2, y2), torch)
+                mdl, lik, orig = _apply_history(hist, mdl, lik, set_params, p1, build, (X2, y2), torch)
             X, y = mdl.train_inputs[0], mdl.train_targets
             nn_ = X.shape[0]
             with torch.no_grad():
@@ -737,8 +761,14 @@ def case_sgpr(ctx, idx, tier, hist=None):
                 mdl.train(); lik.train()
                 mll = gpytorch.mlls.ExactMarginalLogLikelihood(lik, mdl)
                 objective = mll(mdl(X), y).item()
+                shared = mdl.covar_module.likelihood is mdl.likelihood
+                orig_obs = None
+                if hist is not None and orig is not None:
+                    with _cell_ctx(cell):
+                        pr1 = orig[0](Xs)
+                    orig_obs = (before, (pr1.mean.clone(), pr1.covariance_matrix.clone()))
         obs[corr] = dict(objective=objective, pm=pm, pc=pc, cache=cache, kern_xx=kern_xx, kern_sx=kern_sx, cm=cm_v, n=nn_,
-                         root_dev=root_dev)
+                         root_dev=root_dev, shared=shared, orig_obs=orig_obs)
         r = y - cm_v
         lines.append(f"sgpr {S(1 if corr else 0)} {M(Kd)} {M(Kxz)} {M(Kzz)} {M(Ksz)} {M(Kss)} {M(r)} "
                      f"{M(torch.full((nn_,), noise_v))} {M(Rroot)} {M(Linv)}")
@@ -820,21 +850,28 @@ def case_sgpr(ctx, idx, tier, hist=None):
             logdet = math.log(det.numerator) - math.log(det.denominator)
             bound = (-0.5 * float(quad) - 0.5 * logdet - 0.5 * n * math.log(2 * math.pi) + float(added)) / n
             if abs(o["objective"] - bound) > 1e-9 * (1 + abs(bound)):
-                rep.fail(pre + "InducingPointKernel/objective", f"{tag}: ExactMarginalLogLikelihood = {o['objective']!r}, Titsias bound / n = {bound!r}", ex)
-    fam = "hist_sgpr" if hist else "sgpr"
+                rep.fail(pre + "InducingPointKernel/objective", f"{tag}: ExactMarginalLogLikelihood = {o['objective']!r}, Titsias bound / n = {bound!r}"
+                         + ("" if o["shared"] else " (covar_module.likelihood is NOT model.likelihood: the added loss term reads another noise)"), ex)
+            # sharing structure (internal observable; `gen_deepcopy_threads_memo` + `deepcopy_memo_preserves_sharing` predict it)
+            if not o["shared"] and _state.get("deepcopy_likelihood_mode", 0) == 0:
+                ctx.broke("correspondence", "deepcopy-sharing", f"{tag}: covar_module.likelihood is not model.likelihood although the "
+                          "generated __deepcopy__ table threads the memo through the likelihood")
+            _orig_check(rep, pre, tag, o["orig_obs"])
+    fam = ("copy_sgpr" if hist in HIST_COPY else "hist_sgpr") if hist else "sgpr"
     return Case(fam, idx, desc, lines, check, sample={"family": fam, "desc": desc})
 
 
 def case_rff(ctx, idx, tier, hist=None):
     import gpytorch
     torch = _t()
-    rng = ctx.rng(f"{'hist_' if hist else ''}rff:{idx}")
+    rng = ctx.rng(f"{('copy_' if hist in HIST_COPY else 'hist_') if hist else ''}rff:{idx}")
     torch.manual_seed(rng.torch_seed())
     d = rng.randint(1, 3)
     n, ns = rng.randint(4, 9), rng.randint(2, 4)
     D = rng.randint(1, 5)     # 2D features: both D < n/2 (low-rank root) and >= occur
     scaled = idx % 2 == 0
-    cell = ["chol", "cg"][(idx // 2) % 2] if hist is None else ["chol", "cg", "fpv"][(idx // len(HIST)) % 3]
+    cell = ["chol", "cg"][(idx // 2) % 2] if hist is None else \
+        ["chol", "cg", "fpv"][(idx // (len(HIST_COPY) if hist in HIST_COPY else len(HIST))) % 3]
     X0, Xs, y0 = torch.rand(n, d), torch.rand(ns, d), torch.randn(n)
     n2 = rng.randint(4, 9)
     X2, y2 = torch.rand(n2, d), torch.randn(n2)
@@ -875,17 +912,22 @@ def case_rff(ctx, idx, tier, hist=None):
             mdl, lik = build(p0)
             mdl.eval(); lik.eval()
             with torch.no_grad(), _cell_ctx(cell):
-                mdl(Xs).covariance_matrix
-            _apply_history(hist, mdl, lik, set_params, p1, build, (X2, y2), torch)
+                pr0 = mdl(Xs)
+                before = (pr0.mean.clone(), pr0.covariance_matrix.clone())
+            mdl, lik, orig = _apply_history(hist, mdl, lik, set_params, p1, build, (X2, y2), torch)
     X, y = mdl.train_inputs[0], mdl.train_targets
     n = X.shape[0]
     mdl.eval(); lik.eval()
+    orig_obs = None
     with torch.no_grad(), warnings.catch_warnings(), _cell_ctx(cell):
         quiet()
         pred = mdl(Xs)
         pm, pc = pred.mean.clone(), pred.covariance_matrix.clone()
         strat = type(mdl.prediction_strategy).__name__
         chol = mdl.prediction_strategy.covar_cache.clone()
+        if hist is not None and orig is not None:
+            pr1 = orig[0](Xs)
+            orig_obs = (before, (pr1.mean.clone(), pr1.covariance_matrix.clone()))
     with torch.no_grad():
         noise, cmean, ls = lik.noise.item(), mdl.mean_module.constant.item(), mdl.rk.lengthscale.item()
         W = mdl.rk.randn_weights.clone()
@@ -926,24 +968,35 @@ def case_rff(ctx, idx, tier, hist=None):
         rep.close(pre + "RFFPredictionStrategy/model", f"{desc}: covariance vs c F* inner F*^T", pc, covR, rt, at)
         rep.close(pre + "RFFPredictionStrategy/covar-generated", f"{desc}: covariance vs the regenerated expression on the code's own "
                   "covar_cache", pc, gCov, 1e-9, 1e-10)
-    fam = "hist_rff" if hist else "rff"
+        _orig_check(rep, pre, desc, orig_obs)
+    fam = ("copy_rff" if hist in HIST_COPY else "hist_rff") if hist else "rff"
     return Case(fam, idx, desc, lines, check, sample={"family": fam, "desc": desc})
 
 
-def case_kiss(ctx, idx, tier, hist=None):
+def case_kiss(ctx, idx, tier, hist=None, additive=False):
+    """KISS-GP ExactGP model.  `additive`: additive-structure KISS-GP (`AdditiveStructureKernel` over a one-dimensional
+    `GridInterpolationKernel`, i.e. the `last_dim_is_batch=True` path): the covariance is sum_i W_i K_uu W_i^T = W K W^T with
+    W = [W_1 | … | W_d] and K = blockdiag(K_uu, …, K_uu), so the same driver algebra applies.
+    Every case also runs a HISTORY of `get_fantasy_model` calls on the one base object: 2–3 requests with different data,
+    one chained request (fantasy of the first fantasy model), and the base object is examined again afterwards."""
     import gpytorch
     from gpytorch.utils.grid import create_grid
     torch = _t()
-    rng = ctx.rng(f"{'hist_' if hist else ''}kiss:{idx}")
+    label = ("add_" if additive else "") + (("copy_" if hist in HIST_COPY else "hist_") if hist else "")
+    rng = ctx.rng(f"{label}kiss:{idx}")
     torch.manual_seed(rng.torch_seed())
-    d = 1 + idx % 2
+    d = (2 + idx % 2) if additive else (1 + idx % 2)
     if hist is None:
         cell = ["chol", "fpv", "fps", "fpv+fps", "cg"][(idx // 2) % 5]
     else:
-        cell = ["chol", "fpv", "fps", "cg"][(idx // len(HIST)) % 4]
+        cell = ["chol", "fpv", "fps", "cg"][(idx // (len(HIST_COPY) if hist in HIST_COPY else len(HIST))) % 4]
     tz = (idx // 2) % 2 == 0
-    gs = [rng.randint(6, 7)] * d if d == 2 else [rng.randint(8, 12)]
-    bounds = [(0.0, 1.0)] * d
+    if additive:
+        gs = [rng.randint(8, 11)]
+    else:
+        gs = [rng.randint(6, 7)] * d if d == 2 else [rng.randint(8, 12)]
+    gd = len(gs)
+    bounds = [(0.0, 1.0)] * gd
     n, ns, nf = rng.randint(5, 8), rng.randint(2, 4), rng.randint(1, 3)
     X0, Xs, Xf = torch.rand(n, d), torch.rand(ns, d), torch.rand(nf, d)
     y0, yf = torch.randn(n), torch.randn(nf)
@@ -953,13 +1006,20 @@ def case_kiss(ctx, idx, tier, hist=None):
     def draw_params():
         return dict(noise=0.05 + 0.2 * rng.random(), cmean=rng.uniform(-0.5, 0.5), oscale=0.7 + rng.random(), ls=0.4 + 0.5 * rng.random())
     p1, p0 = draw_params(), draw_params()
+    # further fantasy requests against the SAME base object (request 0 is (Xf, yf))
+    nreq = 2 + idx % 2
+    reqs = [(Xf, yf)]
+    for _ in range(nreq - 1):
+        nfk = rng.randint(1, 3)
+        reqs.append((torch.rand(nfk, d), torch.randn(nfk)))
 
     class KS(gpytorch.models.ExactGP):
         def __init__(s, lik):
             super().__init__(X0, y0, lik)
             s.mean_module = gpytorch.means.ConstantMean()
-            s.gk = gpytorch.kernels.GridInterpolationKernel(gpytorch.kernels.RBFKernel(), grid_size=gs, num_dims=d, grid_bounds=bounds)
-            s.covar_module = gpytorch.kernels.ScaleKernel(s.gk)
+            s.gk = gpytorch.kernels.GridInterpolationKernel(gpytorch.kernels.RBFKernel(), grid_size=gs, num_dims=gd, grid_bounds=bounds)
+            s.sk = gpytorch.kernels.ScaleKernel(s.gk)
+            s.covar_module = gpytorch.kernels.AdditiveStructureKernel(s.sk, num_dims=d) if additive else s.sk
 
         def forward(s, x):
             return gpytorch.distributions.MultivariateNormal(s.mean_module(x), s.covar_module(x))
@@ -967,7 +1027,7 @@ def case_kiss(ctx, idx, tier, hist=None):
     def set_params(mdl, lik, p):
         lik.noise = p["noise"]
         mdl.mean_module.constant.data.fill_(p["cmean"])
-        mdl.covar_module.outputscale = p["oscale"]
+        mdl.sk.outputscale = p["oscale"]
         mdl.gk.base_kernel.lengthscale = p["ls"]
 
     def build(p):
@@ -978,6 +1038,7 @@ def case_kiss(ctx, idx, tier, hist=None):
         set_params(mdl, lik, p)
         return mdl, lik
 
+    orig = None
     with warnings.catch_warnings(), gpytorch.settings.use_toeplitz(tz):
         quiet()
         if hist is None:
@@ -986,49 +1047,105 @@ def case_kiss(ctx, idx, tier, hist=None):
             mdl, lik = build(p0)
             mdl.eval(); lik.eval()
             with torch.no_grad(), _cell_ctx(cell):
-                mdl(Xs).covariance_matrix          # fills prediction_strategy and GridKernel._cached_kernel_mat
+                pr0 = mdl(Xs)                          # fills prediction_strategy and GridKernel._cached_kernel_mat
+                before = (pr0.mean.clone(), pr0.covariance_matrix.clone())
                 mdl.covar_module(X0, X0).to_dense()
-            _apply_history(hist, mdl, lik, set_params, p1, build, (X2, y2), torch)
+            mdl, lik, orig = _apply_history(hist, mdl, lik, set_params, p1, build, (X2, y2), torch)
     X, y = mdl.train_inputs[0], mdl.train_targets
     n = X.shape[0]
     mdl.eval(); lik.eval()
     fant = {}
+    fhist = []          # one record per request of the fantasy history
+    base_after = {}
+    orig_obs = None
     with torch.no_grad(), warnings.catch_warnings(), gpytorch.settings.use_toeplitz(tz), _cell_ctx(cell):
         quiet()
         pred = mdl(Xs)
         pm, pc = pred.mean.clone(), pred.covariance_matrix.clone()
         strat = type(mdl.prediction_strategy).__name__
-        try:
-            fm = mdl.get_fantasy_model(Xf, yf)
-            fp = fm(Xs)
-            fant = {"mean": fp.mean.clone(), "cov": fp.covariance_matrix.clone(), "wiski": bool(fm.prediction_strategy.uses_wiski)}
-        except Exception as e:  # noqa: BLE001
-            fant = {"error": f"{type(e).__name__}: {str(e)[:200]}"}
+        fm_first = None
+        for k, (Xk, yk) in enumerate(reqs):
+            try:
+                fm = mdl.get_fantasy_model(Xk, yk)
+                fp = fm(Xs)
+                rec = {"mean": fp.mean.clone(), "cov": fp.covariance_matrix.clone(), "wiski": bool(fm.prediction_strategy.uses_wiski),
+                       "resp": fm.prediction_strategy.interp_response_cache.clone().reshape(-1)}
+                if k == 0:
+                    fm_first = fm
+            except Exception as e:  # noqa: BLE001
+                rec = {"error": f"{type(e).__name__}: {str(e)[:200]}"}
+            fhist.append(rec)
+            if k == 0:
+                fant = rec
+            if "error" in rec:
+                break
+        # chained request: a fantasy model of the FIRST fantasy model with the data of request 1
+        chain = None
+        if fm_first is not None and len(fhist) == len(reqs) and "error" not in fhist[-1]:
+            try:
+                fc = fm_first.get_fantasy_model(reqs[1][0], reqs[1][1])
+                fcp = fc(Xs)
+                chain = {"mean": fcp.mean.clone(), "cov": fcp.covariance_matrix.clone(),
+                         "resp": fc.prediction_strategy.interp_response_cache.clone().reshape(-1)}
+            except Exception as e:  # noqa: BLE001
+                chain = {"error": f"{type(e).__name__}: {str(e)[:200]}"}
+            # the base object after the history
+            pa = mdl(Xs)
+            base_after = {"mean": pa.mean.clone(), "cov": pa.covariance_matrix.clone(),
+                          "resp": mdl.prediction_strategy.interp_response_cache.clone().reshape(-1)}
+        if hist is not None and orig is not None:
+            pr1 = orig[0](Xs)
+            orig_obs = (before, (pr1.mean.clone(), pr1.covariance_matrix.clone()))
     with torch.no_grad(), warnings.catch_warnings(), gpytorch.settings.use_toeplitz(tz):
         quiet()
         noise, cmean = lik.noise.item(), mdl.mean_module.constant.item()
         grids = [g.clone() for g in mdl.gk.grid]
         # K_uu of the CURRENT parameters, evaluated densely (no grid structure, no cache) at the grid points in the
         # order in which the interpolation indices number them (first dimension slowest)
-        U = torch.stack(torch.meshgrid(*grids, indexing="ij"), dim=-1).reshape(-1, d)
-        Kuu = mdl.gk.base_kernel(U, U).to_dense() * mdl.covar_module.outputscale
-        Kuu_code = mdl.gk._inducing_forward(last_dim_is_batch=False).to_dense() * mdl.covar_module.outputscale
+        U = torch.stack(torch.meshgrid(*grids, indexing="ij"), dim=-1).reshape(-1, gd)
+        Kuu1 = mdl.gk.base_kernel(U, U).to_dense() * mdl.sk.outputscale
+        g1 = Kuu1.shape[0]
+        if additive:
+            Kuu = torch.block_diag(*[Kuu1] * d)
+            Kc = mdl.gk._inducing_forward(last_dim_is_batch=True).to_dense() * mdl.sk.outputscale
+            Kuu_code = torch.block_diag(*[Kc.reshape(-1, g1, g1)[i if Kc.reshape(-1, g1, g1).shape[0] > 1 else 0] for i in range(d)])
+        else:
+            Kuu = Kuu1
+            Kuu_code = mdl.gk._inducing_forward(last_dim_is_batch=False).to_dense() * mdl.sk.outputscale
         g = Kuu.shape[0]
 
         def dense_w(x):
-            ii, vv = mdl.gk._compute_grid(x)
             Wm = torch.zeros(x.shape[0], g)
+            if additive:
+                ii, vv = mdl.gk._compute_grid(x, True)          # d x n x 4
+                for i in range(d):
+                    for a in range(x.shape[0]):
+                        for j in range(ii.shape[-1]):
+                            Wm[a, i * g1 + ii[i, a, j]] += vv[i, a, j]
+                return Wm
+            ii, vv = mdl.gk._compute_grid(x)
             for a in range(x.shape[0]):
                 for j in range(ii.shape[1]):
                     Wm[a, ii[a, j]] += vv[a, j]
             return Wm
-        W, Ws, Wf = dense_w(X), dense_w(Xs), dense_w(Xf)
+        W, Ws = dense_w(X), dense_w(Xs)
+        Wfs = [dense_w(Xk) for Xk, _ in reqs]
         kxx = mdl.covar_module(X, X).to_dense()
         ksx = mdl.covar_module(Xs, X).to_dense()
+    Wf = Wfs[0]
     lines = [f"kiss {M(W)} {M(Ws)} {M(Kuu)} {M(torch.full((n,), noise))} {M(y - cmean)} {M(Wf)} {M(torch.full((nf,), noise))} {M(yf - cmean)}",
-             _interp_line(grids, X)]
-    desc = f"{'hist[' + hist + '] ' if hist else ''}kiss d={d} grid_size={gs} n={n} n*={ns} nf={nf} cell={cell} use_toeplitz={tz}"
+             # additive: the d columns are interpolated one after the other on the shared 1-D grid (point i*n + a = X[a, i])
+             _interp_line(grids, X.T.reshape(-1, 1) if additive else X)]
+    # the fantasy history: requests 0..nreq-1 against the base object, then the chained one (= one request with the data of
+    # request 0 followed by the data of request 1: theorem wiski_chain_eq_recompute)
+    hreqs = [(Wfs[k], reqs[k][1]) for k in range(len(reqs))] + [(torch.cat([Wfs[0], Wfs[1]]), torch.cat([reqs[0][1], reqs[1][1]]))]
+    sq = math.sqrt(noise)
+    lines.append(f"kissh {M(W)} {M(Ws)} {M(Kuu)} {M(torch.full((n,), noise))} {M(y - cmean)} " + " ".join(
+        f"{M(Wk)} {M(torch.full((Wk.shape[0],), noise))} {M(yk - cmean)} {M(torch.full((Wk.shape[0],), sq))}" for Wk, yk in hreqs))
+    desc = (f"{'hist[' + hist + '] ' if hist else ''}kiss{'-additive' if additive else ''} d={d} grid_size={gs} n={n} n*={ns} nf={nf} "
+            f"cell={cell} use_toeplitz={tz}")
     pre = f"history:{hist}/" if hist else ""
+    KP = "AdditiveGridInterpolationKernel" if additive else "GridInterpolationKernel"
 
     def check(rep, R):
         rt, at = CELL_TOL[cell]
@@ -1043,20 +1160,24 @@ def case_kiss(ctx, idx, tier, hist=None):
             return
         kd = (Kuu_code - Kuu).abs().max().item()
         if kd > 1e-11 * max(1.0, Kuu.abs().max().item()):
-            rep.fail(pre + "GridInterpolationKernel/K_uu", f"{desc}: the kernel's inducing matrix differs from k(u_a,u_b) of the current "
+            rep.fail(pre + KP + "/K_uu", f"{desc}: the kernel's inducing matrix differs from k(u_a,u_b) of the current "
                      f"parameters (grid points numbered as the interpolation indices do) by {kd:.3e}")
         # W as used by the kernel == generated model of Interpolation.interpolate
         idx_rows, val_rows = parse_reply(R[1])
         Wm = [[Fraction(0)] * len(Kuu) for _ in range(n)]
         for a in range(n):
-            for u, v in zip(idx_rows[a], val_rows[a]):
-                Wm[a][int(u)] += v
-        rep.close(pre + "GridInterpolationKernel/W", f"{desc}: interpolation matrix vs generated model", W, Wm, rtol=1e-12, atol=1e-12)
-        rep.close(pre + "GridInterpolationKernel/train-matrix", f"{desc}: kernel(X,X).to_dense() vs W K_uu W^T", kxx, Kxx, rtol=1e-11, atol=1e-12)
-        rep.close(pre + "GridInterpolationKernel/cross-matrix", f"{desc}: kernel(X*,X).to_dense() vs W* K_uu W^T", ksx, Ksx, rtol=1e-11, atol=1e-12)
+            for i in range(d if additive else 1):
+                row = i * n + a
+                for u, v in zip(idx_rows[row], val_rows[row]):
+                    Wm[a][i * g1 + int(u)] += v
+        rep.close(pre + KP + "/W", f"{desc}: interpolation matrix vs generated model"
+                  + (" (column i of the inputs on the shared 1-D grid for batch element i)" if additive else ""), W, Wm, rtol=1e-12, atol=1e-12)
+        rep.close(pre + KP + "/train-matrix", f"{desc}: kernel(X,X).to_dense() vs W K_uu W^T", kxx, Kxx, rtol=1e-11, atol=1e-12)
+        rep.close(pre + KP + "/cross-matrix", f"{desc}: kernel(X*,X).to_dense() vs W* K_uu W^T", ksx, Ksx, rtol=1e-11, atol=1e-12)
         cm = C.frac(cmean)
         rep.close(pre + "InterpolatedPredictionStrategy/mean", f"{desc}: mean vs dense conditional of W K_uu W^T", pm, [[v[0] + cm] for v in mean], rt, at)
         rep.close(pre + "InterpolatedPredictionStrategy/covar", f"{desc}: covariance vs dense conditional of W K_uu W^T", pc, cov, rt, at)
+        _orig_check(rep, pre, desc, orig_obs)
         if "error" in fant:
             ctx.count("kiss_fantasy_raised")
             rep.fail(pre + "InterpolatedPredictionStrategy/fantasy/raises:" + cell, f"{desc}: get_fantasy_model(...)(x*) raises {fant['error']}")
@@ -1072,7 +1193,44 @@ def case_kiss(ctx, idx, tier, hist=None):
             ctx.count("wiski_exact_cache_checks")
         if g <= 14 and any(abs(a[0] - b[0]) > Fraction(1, 10 ** 30) for a, b in zip(fmean, dmean)):
             ctx.broke("correspondence", "wiski-model", f"{desc}: exact WISKI cache mean differs from the exact dense conditional")
-    fam = "hist_kiss" if hist else "kiss"
+        # ---- the fantasy HISTORY: every request against the same base object, then the chained request, then the base again
+        H = parse_reply(R[2])
+        per = [H[1 + 6 * k: 7 + 6 * k] for k in range(len(hreqs))]
+        base_resp, gbase_resp, dPbase = H[1 + 6 * len(hreqs):]
+        hp = pre + "InterpolatedPredictionStrategy/fantasy-history/"
+        recs = fhist + [chain]
+        for k, (rec, (dm_k, dc_k, resp_k, gresp_k, dP_k, fmean_k)) in enumerate(zip(recs, per)):
+            what = f"request #{k} on the same base model" if k < len(reqs) else "chained request (fantasy model of fantasy model #0 with the data of request #1)"
+            ex = {"request": k, "requests": len(reqs), "chained": k >= len(reqs)}
+            # generated transition threaded through the history == model (response exact; inner product up to the float sqrt oracle)
+            if tie(ctx, "wiskiFantasyStep[response]", gresp_k, resp_k, f"{desc} {what}") and float(dP_k) > 1e-10 * (1 + n / noise):
+                ctx.broke("correspondence", "generated!=model:wiskiFantasyStep[inner_prod]", f"{desc} {what}: generated interp_inner_prod differs by {float(dP_k):.3e}")
+            if g <= 14 and any(abs(a[0] - b[0]) > Fraction(1, 10 ** 30) for a, b in zip(fmean_k, dm_k)):
+                ctx.broke("correspondence", "wiski-model", f"{desc} {what}: exact WISKI cache mean differs from the exact dense conditional")
+            if rec is None:
+                continue
+            if "error" in rec:
+                rep.fail(hp + "raises:" + cell, f"{desc} {what}: get_fantasy_model(...)(x*) raises {rec['error']}", ex)
+                continue
+            ctx.count("kiss_fantasy_history_requests")
+            tag = "chained-" if k >= len(reqs) else ("repeat-" if k > 0 else "")
+            rep.close(hp + tag + "response-cache", f"{desc} {what}: interp_response_cache of the new strategy vs W^T D^-1 r on train ++ its own fantasy data",
+                      rec["resp"], resp_k, 1e-9, 1e-10, extra=ex)
+            rep.close(hp + tag + "mean", f"{desc} {what}: fantasy mean vs dense conditional on train ++ its own fantasy data",
+                      rec["mean"], [[v[0] + cm] for v in dm_k], frt, fat, extra=ex)
+            rep.close(hp + tag + "covar", f"{desc} {what}: fantasy covariance vs dense conditional on train ++ its own fantasy data",
+                      rec["cov"], dc_k, frt, fat, extra=ex)
+        if tie(ctx, "wiskiFantasyStep[self.response after the history]", gbase_resp, base_resp, desc) and float(dPbase) != 0:
+            ctx.broke("correspondence", "generated!=model:wiskiFantasyStep[self.inner_prod after the history]", f"{desc}: {float(dPbase):.3e}")
+        if base_after:
+            rep.close(hp + "source-response-cache", f"{desc}: interp_response_cache of the BASE strategy after {len(reqs)} fantasy models were derived "
+                      "from it vs W^T D^-1 r of the training data (the update must not modify the object it is called on)",
+                      base_after["resp"], base_resp, 1e-9, 1e-10)
+            rep.close(hp + "source-mean", f"{desc}: mean of the base model after the fantasy history vs dense conditional", base_after["mean"],
+                      [[v[0] + cm] for v in mean], rt, at)
+            rep.close(hp + "source-covar", f"{desc}: covariance of the base model after the fantasy history vs dense conditional", base_after["cov"],
+                      cov, rt, at)
+    fam = ("add_" if additive else "") + (("copy_kiss" if hist in HIST_COPY else "hist_kiss") if hist else "kiss")
     return Case(fam, idx, desc, lines, check, sample={"family": fam, "desc": desc})
 
 
@@ -1174,6 +1332,138 @@ def case_mtmodel(ctx, idx, tier):
     return Case("mtmodel", idx, desc, lines, check, sample={"family": "mtmodel", "desc": desc})
 
 
+def case_kisslb(ctx, idx, tier):
+    """kernel level, `last_dim_is_batch=True` (additive structure): GridInterpolationKernel over a ONE-dimensional grid applied
+    to n x d inputs returns d kernels, batch element i being W(x1[:, i]) K_uu W(x2[:, i])^T; `_compute_grid(x, True)` returns
+    the interpolation of column i in batch element i; GridKernel.forward(last_dim_is_batch=True) returns the per-dimension
+    factor(s) without a Kronecker product.  d = 1..3, with and without a leading batch dimension, x2 = x1 / x2 != x1,
+    use_toeplitz on / off."""
+    import gpytorch
+    torch = _t()
+    rng = ctx.rng(f"kisslb:{idx}")
+    torch.manual_seed(rng.torch_seed())
+    d = 1 + idx % 3
+    tz = (idx // 3) % 2 == 0
+    same = (idx // 6) % 2 == 1
+    nb = 2 if idx % 4 == 3 else 0               # leading batch dimension of the inputs
+    gsz = rng.randint(8, 12)
+    hi = 1.0 + rng.choice([0.0, 0.5, 1.0])
+    bounds = [(0.0, hi)]
+    ls = 0.3 + 0.5 * rng.random()
+    n, m = rng.randint(3, 6), rng.randint(2, 5)
+    bshape = (nb,) if nb else ()
+    x1 = hi * torch.rand(*bshape, n, d)
+    x2 = x1 if same else hi * torch.rand(*bshape, m, d)
+    if same:
+        m = n
+    base = gpytorch.kernels.RBFKernel()
+    base.lengthscale = ls
+    with gpytorch.settings.use_toeplitz(tz), torch.no_grad(), warnings.catch_warnings():
+        quiet()
+        gk = _kiss_kernel(base, [gsz], 1, bounds)
+        got = gk(x1, x2, last_dim_is_batch=True).to_dense()        # (*b, d, n, m)
+        ii1, vv1 = gk._compute_grid(x1, True)                      # (*b, d, n, 4)
+        grids = [g.clone() for g in gk.grid]
+        Kf = gk._inducing_forward(last_dim_is_batch=True).to_dense().reshape(-1, gsz, gsz)
+        ev = gk.eval()
+        got_eval = ev(x1, x2, last_dim_is_batch=True).to_dense()    # eval mode: through GridKernel._cached_kernel_mat
+        got_eval2 = ev(x1, x2, last_dim_is_batch=True).to_dense()
+    Ks = _dim_kernels(torch, grids, [ls])
+    # all coordinates as one list of 1-D points: batch-major, then dimension, then data index
+    def pts(x):
+        return x.transpose(-1, -2).reshape(-1, 1)
+    lines = [f"gridB {S(1 if tz else 0)} {M(Ks[0])}", _interp_line(grids, pts(x1)), _interp_line(grids, pts(x2))]
+    desc = (f"kisslb d={d} grid_size={gsz} bound={hi} n={n} m={m} batch={list(bshape)} x2_is_x1={same} use_toeplitz={tz}")
+
+    def check(rep, R):
+        fac = parse_reply(R[0])
+        gK, K = fac[0], fac[1]
+        tie(ctx, "gridForwardLastDimBatch", gK, K, desc)
+        for b in range(Kf.shape[0]):
+            rep.close("GridKernel/last_dim_is_batch/factor", f"{desc}: GridKernel.forward(last_dim_is_batch=True)[{b}] vs the 1-D kernel matrix k(u_a,u_b)",
+                      Kf[b], K, rtol=1e-11, atol=1e-12)
+
+        def wrows(rp):
+            idx_rows, val_rows = parse_reply(rp)
+            Wl = []
+            for ir, vr in zip(idx_rows, val_rows):
+                row = [Fraction(0)] * gsz
+                for u, v in zip(ir, vr):
+                    row[int(u)] += v
+                Wl.append(row)
+            return Wl, idx_rows, val_rows
+        W1, I1, V1 = wrows(R[1])
+        W2, _, _ = wrows(R[2])
+        B = nb if nb else 1
+        G1 = got.reshape(B, d, n, m)
+        GE, GE2 = got_eval.reshape(B, d, n, m), got_eval2.reshape(B, d, n, m)
+        II, VV = ii1.reshape(B, d, n, -1), vv1.reshape(B, d, n, -1)
+        for b in range(B):
+            for i in range(d):
+                r1 = [W1[(b * d + i) * n + a] for a in range(n)]
+                r2 = [W2[(b * d + i) * m + c] for c in range(m)]
+                KW2 = [[sum(K[u][v] * w for v, w in enumerate(rr) if w != 0) for rr in r2] for u in range(gsz)]
+                want = [[sum(w * KW2[u][c] for u, w in enumerate(rr) if w != 0) for c in range(m)] for rr in r1]
+                ex = {"batch": b, "dim": i}
+                what = f"{desc}: batch element (b={b}, input dimension i={i})"
+                rep.close("GridInterpolationKernel/last_dim_is_batch/to_dense", f"{what} of kernel(x1,x2,last_dim_is_batch=True) vs "
+                          "W(x1[:,i]) K_uu W(x2[:,i])^T", G1[b, i], want, rtol=1e-11, atol=1e-12, extra=ex)
+                rep.close("GridInterpolationKernel/last_dim_is_batch/eval-cache", f"{what}: first eval-mode call vs W(x1[:,i]) K_uu W(x2[:,i])^T",
+                          GE[b, i], want, rtol=1e-11, atol=1e-12, extra=ex)
+                rep.close("GridInterpolationKernel/last_dim_is_batch/eval-cache", f"{what}: second eval-mode call (cached K_uu) vs W(x1[:,i]) K_uu W(x2[:,i])^T",
+                          GE2[b, i], want, rtol=1e-11, atol=1e-12, extra=ex)
+                # _compute_grid: dense rows of batch element i = interpolation of column i
+                for a in range(n):
+                    dg = [0.0] * gsz
+                    okr = True
+                    for j, u in enumerate(II[b, i, a].tolist()):
+                        if not 0 <= u < gsz:
+                            okr = False
+                        else:
+                            dg[u] += VV[b, i, a, j].item()
+                    derr = max(abs(x - float(w)) for x, w in zip(dg, r1[a])) if okr else float("inf")
+                    if derr > 1e-12:
+                        rep.fail("GridInterpolationKernel/last_dim_is_batch/compute_grid", f"{what}: _compute_grid(x1, True)[{i}, {a}] is not the "
+                                 f"interpolation row of x1[{a}, {i}] = {x1.reshape(B, n, d)[b, a, i].item()!r} (differs by {derr:.3e})", ex)
+                        break
+    return Case("kisslb", idx, desc, lines, check, nontrivial=d > 1, sample={"family": "kisslb", "desc": desc})
+
+
+def case_gentab(ctx, idx, tier):
+    """ties of the small generated tables: `_compute_grid`'s source map / shapes and the copy modes of
+    `InducingPointKernel.__deepcopy__` (generated vs model), and the implementation's `_compute_grid` against the source map."""
+    import gpytorch
+    torch = _t()
+    rng = ctx.rng(f"gentab:{idx}")
+    n, d = rng.randint(2, 5), rng.randint(2, 4)
+    lines = [f"gentab {S(n)} {S(d)}"]
+    desc = f"gentab n={n} d={d}"
+
+    def check(rep, R):
+        gsrc, msrc, gshape, mshape, gmodes, mmodes = parse_reply(R[0])
+        tie(ctx, "computeGridSource", gsrc, msrc, desc)
+        tie(ctx, "computeGridPointDim/computeGridResultShape", gshape, mshape, desc)
+        tie(ctx, "inducingDeepcopyArgs", gmodes, mmodes, desc)
+        _state["deepcopy_likelihood_mode"] = int(gmodes[0][2])
+    return Case("gentab", idx, desc, lines, check, nontrivial=True, sample={"family": "gentab", "desc": desc})
+
+
+def case_add_kiss(ctx, idx, tier):
+    return case_kiss(ctx, idx, tier, additive=True)
+
+
+def case_copy_sgpr(ctx, idx, tier):
+    return case_sgpr(ctx, idx, tier, hist=HIST_COPY[idx % len(HIST_COPY)])
+
+
+def case_copy_rff(ctx, idx, tier):
+    return case_rff(ctx, idx, tier, hist=HIST_COPY[idx % len(HIST_COPY)])
+
+
+def case_copy_kiss(ctx, idx, tier):
+    return case_kiss(ctx, idx, tier, hist=HIST_COPY[idx % len(HIST_COPY)], additive=idx % 2 == 1)
+
+
 def case_hist_sgpr(ctx, idx, tier):
     return case_sgpr(ctx, idx, tier, hist=HIST[idx % len(HIST)])
 
@@ -1231,12 +1521,17 @@ def case_hist_grid(ctx, idx, tier):
 
 
 FAMILIES = {   # family: (case builder, #cases quick, #cases thorough)
+    "gentab": (case_gentab, 2, 6),          # first: records the generated __deepcopy__ mode used by the copy histories
     "kron": (case_kron, 12, 300), "index": (case_index, 8, 200), "lcm": (case_lcm, 6, 150), "grid": (case_grid, 9, 90),
     "interp": (case_interp, 18, 300), "kisskernel": (case_kisskernel, 12, 100), "convergence": (case_convergence, 4, 4),
     "sgpr": (case_sgpr, 12, 240), "rff": (case_rff, 12, 200), "kiss": (case_kiss, 20, 200), "mtmodel": (case_mtmodel, 18, 252),
     # operation histories through the documented invalidation points (train(), load_state_dict, set_train_data, update_grid)
     "hist_sgpr": (case_hist_sgpr, 12, 96), "hist_rff": (case_hist_rff, 8, 72), "hist_kiss": (case_hist_kiss, 16, 64),
     "hist_grid": (case_hist_grid, 6, 36),
+    # additive-structure KISS-GP (`last_dim_is_batch=True`): kernel level and ExactGP models (incl. fantasy histories)
+    "kisslb": (case_kisslb, 12, 96), "add_kiss": (case_add_kiss, 10, 80),
+    # copy-then-modify-then-evaluate histories (deepcopy, then setters / optimiser steps / load_state_dict on the COPY)
+    "copy_sgpr": (case_copy_sgpr, 9, 54), "copy_rff": (case_copy_rff, 6, 36), "copy_kiss": (case_copy_kiss, 12, 48),
 }
 
 
